@@ -12,7 +12,7 @@ def hexVal (c : Char) : Option Nat :=
 
 /-- bytes → "x" ++ lowercase hex -/
 def encBytes (bs : List Nat) : String :=
-  String.mk ('x' :: bs.foldr (fun b acc => hexDigit (b / 16) :: hexDigit (b % 16) :: acc) [])
+  String.ofList ('x' :: bs.foldr (fun b acc => hexDigit (b / 16) :: hexDigit (b % 16) :: acc) [])
 
 def decHexAux : List Char → Option (List Nat)
   | [] => some []
